@@ -71,3 +71,18 @@ Theorem C07_internal_gap_counter_symmetric : forall s1 s2 ws rm,
   (snd (count_diffs_internal s1 s2 ws rm) == snd (count_diffs_internal s2 s1 ws rm))%Q.
 Proof. exact count_diffs_internal_sym. Qed.
 Print Assumptions C07_internal_gap_counter_symmetric.
+
+(* the running accumulators of that counter (leading flags, the two trailing-run accumulators, the final
+   subtraction of the larger one) against its definition by columns: a FINITE statement, by exhaustive
+   evaluation in the kernel - every pair of rows of equal length 1..4 over the codes A, C, R, N and gap,
+   with and without removal of ambiguous matches, and every pair of rows of length 5 over A, R, gap with
+   dyadic weights *)
+Theorem C07_internal_gap_counter_is_its_column_definition_small :
+  (forall n s1 s2 rm, In n [1; 2; 3; 4]%nat -> In s1 (zwords n codes5) -> In s2 (zwords n codes5) ->
+     (fst (count_diffs_internal s1 s2 None rm) == fst (count_diffs_internal_spec s1 s2 None rm))%Q /\
+     (snd (count_diffs_internal s1 s2 None rm) == snd (count_diffs_internal_spec s1 s2 None rm))%Q) /\
+  (forall s1 s2 rm, In s1 (zwords 5 codes3) -> In s2 (zwords 5 codes3) ->
+     (fst (count_diffs_internal s1 s2 weights5 rm) == fst (count_diffs_internal_spec s1 s2 weights5 rm))%Q /\
+     (snd (count_diffs_internal s1 s2 weights5 rm) == snd (count_diffs_internal_spec s1 s2 weights5 rm))%Q).
+Proof. exact internal_counter_is_column_spec_small. Qed.
+Print Assumptions C07_internal_gap_counter_is_its_column_definition_small.
